@@ -11,21 +11,34 @@ import (
 	"go/ast"
 	"go/token"
 	"io"
+	"io/fs"
 	"math/big"
 	"math/rand"
+	"os"
 	"path"
+	"path/filepath"
 	"sort"
 	"strconv"
+	"strings"
+	"sync"
 	"time"
 
 	"github.com/go-kit/log"
 	"github.com/oklog/ulid/v2"
+	"github.com/prometheus/client_golang/prometheus"
+	"github.com/prometheus/client_golang/prometheus/promauto"
 	"github.com/prometheus/common/model"
+	"github.com/prometheus/prometheus/model/labels"
+	"github.com/prometheus/prometheus/tsdb"
 	"github.com/thanos-io/objstore"
 
 	"github.com/thanos-io/thanos/pkg/block"
 	"github.com/thanos-io/thanos/pkg/block/metadata"
+	"github.com/thanos-io/thanos/pkg/compact"
+	"github.com/thanos-io/thanos/pkg/logutil"
+	"github.com/thanos-io/thanos/pkg/testutil/e2eutil"
 	"github.com/thanos-io/thanos/zzverif/common"
+	cu "github.com/thanos-io/thanos/zzverif/compactutil"
 )
 
 type blk struct {
@@ -37,8 +50,19 @@ type blk struct {
 }
 
 type input struct {
-	DelayS int64 `json:"delay_s"`
-	Blocks []blk `json:"blocks"`
+	// kind "" / "sync": one gateway sync through the real filter chain.
+	// kind "compact": one run of the real BucketCompactor.Compact; its bucket operations are
+	// replayed against the protocol's guards.  Scenario: merge (four aligned real blocks),
+	// dups (meta-only duplicates to garbage-collect), rewrite (a tombstone-heavy block that is
+	// rewritten alone), or several of them.
+	Kind    string `json:"kind,omitempty"`
+	DelayS  int64  `json:"delay_s,omitempty"`
+	Blocks  []blk  `json:"blocks,omitempty"`
+	Merge   bool   `json:"merge,omitempty"`
+	Dups    int    `json:"dups,omitempty"`
+	Rewrite bool   `json:"rewrite,omitempty"`
+	// the rewrite scenario makes the compactor loop: it is stopped after this many ms
+	TimeoutMs int64 `json:"timeout_ms,omitempty"`
 }
 
 // ---- tie T -------------------------------------------------------------------------
@@ -182,6 +206,23 @@ func facts(repo string, w io.Writer) error {
 		return err
 	}
 	fmt.Fprintf(w, "(* cmd/thanos/compact.go: delay of the compactor's own IgnoreDeletionMarkFilter *)\nDefinition compact_ignore_delay_expr (deleteDelay : Z) : Z :=\n  %s.\n", e)
+	// the compactor's own steps: statement order in pkg/compact/compact.go
+	ps, err := common.ParseSrc(repo, "pkg/compact/compact.go")
+	if err != nil {
+		return err
+	}
+	for _, f := range []struct{ fn, name string }{
+		{"Group.compact", "group_compact_events"},
+		{"Group.deleteBlock", "deleteBlock_events"},
+		{"Syncer.GarbageCollect", "GarbageCollect_events"},
+	} {
+		evs, err := ps.CallOrder(f.fn)
+		if err != nil {
+			return err
+		}
+		fmt.Fprintf(w, "(* pkg/compact/compact.go: %s *)\n", f.fn)
+		fmt.Fprint(w, common.EventsCoq(f.name, evs))
+	}
 	p, err := filterPos(ss, "runStore", "ignoreDeletionMarkFilter", "block.NewDeduplicateFilter")
 	if err != nil {
 		return err
@@ -210,6 +251,9 @@ func run(raw json.RawMessage) (common.Case, error) {
 	var in input
 	if err := json.Unmarshal(raw, &in); err != nil {
 		return common.Case{}, err
+	}
+	if in.Kind == "compact" {
+		return runCompact(in)
 	}
 	var c common.Case
 	ctx := context.Background()
@@ -282,8 +326,344 @@ func run(raw json.RawMessage) (common.Case, error) {
 	return c, nil
 }
 
+// ---- tie C (2): the real compactor's bucket operations against the protocol's guards ----
+
+var (
+	tmplOnce sync.Once
+	tmplErr  error
+	tmplObjs map[string]map[string][]byte // scenario part -> object name -> content
+)
+
+func buildTemplate() {
+	dir, err := os.MkdirTemp("", "verif-c34-")
+	if err != nil {
+		tmplErr = err
+		return
+	}
+	defer os.RemoveAll(dir)
+	tmplObjs = map[string]map[string][]byte{"merge": {}, "rewrite": {}}
+	series := []labels.Labels{labels.FromStrings("a", "1"), labels.FromStrings("a", "2")}
+	mk := func(part string, mint, maxt int64, stream string, tomb uint64) {
+		id, err := e2eutil.CreateBlock(context.Background(), dir, series, 20, mint, maxt, labels.FromStrings("stream", stream), 0, metadata.NoneFunc, nil)
+		if err != nil {
+			tmplErr = err
+			return
+		}
+		bdir := filepath.Join(dir, id.String())
+		if tomb > 0 {
+			m, err := metadata.ReadFromDir(bdir)
+			if err != nil {
+				tmplErr = err
+				return
+			}
+			m.Stats.NumTombstones = tomb
+			if err := m.WriteToDir(log.NewNopLogger(), bdir); err != nil {
+				tmplErr = err
+				return
+			}
+		}
+		err = filepath.WalkDir(bdir, func(p string, d fs.DirEntry, err error) error {
+			if err != nil || d.IsDir() {
+				return err
+			}
+			b, err := os.ReadFile(p)
+			if err != nil {
+				return err
+			}
+			rel, _ := filepath.Rel(dir, p)
+			tmplObjs[part][filepath.ToSlash(rel)] = b
+			return nil
+		})
+		if err != nil {
+			tmplErr = err
+		}
+	}
+	for i := int64(0); i < 4; i++ {
+		mk("merge", i*1000, (i+1)*1000, "merge", 0)
+	}
+	// a block at least ranges[len/2] long whose meta reports many tombstones, and a newer one
+	mk("rewrite", 0, 4000, "rewrite", 10)
+	mk("rewrite", 4000, 5000, "rewrite", 0)
+}
+
+func metaOnly(id ulid.ULID, stream string, mint, maxt int64, sources []ulid.ULID) []byte {
+	m := metadata.Meta{}
+	m.Version = 1
+	m.ULID = id
+	m.MinTime, m.MaxTime = mint, maxt
+	m.Compaction.Level = 1
+	m.Compaction.Sources = sources
+	if sources == nil {
+		m.Compaction.Sources = []ulid.ULID{id}
+	}
+	m.Stats = tsdb.BlockStats{NumSamples: 1, NumSeries: 1, NumChunks: 1}
+	m.Thanos.Labels = map[string]string{"stream": stream}
+	m.Thanos.Version = 1
+	b, _ := json.Marshal(m)
+	return b
+}
+
+type binfo struct {
+	id      ulid.ULID
+	group   string
+	sources []ulid.ULID
+}
+
+func readInfo(bkt objstore.Bucket, id ulid.ULID) (*binfo, error) {
+	r, err := bkt.Get(context.Background(), path.Join(id.String(), block.MetaFilename))
+	if err != nil {
+		return nil, err
+	}
+	defer r.Close()
+	var m metadata.Meta
+	if err := json.NewDecoder(r).Decode(&m); err != nil {
+		return nil, err
+	}
+	return &binfo{id: id, group: m.Thanos.GroupKey(), sources: m.Compaction.Sources}, nil
+}
+
+func runCompact(in input) (common.Case, error) {
+	var c common.Case
+	tmplOnce.Do(buildTemplate)
+	if tmplErr != nil {
+		return c, tmplErr
+	}
+	ctx := context.Background()
+	inmem := objstore.NewInMemBucket()
+	put := func(name string, b []byte) error { return inmem.Upload(ctx, name, bytes.NewReader(b)) }
+	if in.Merge {
+		for k, v := range tmplObjs["merge"] {
+			if err := put(k, v); err != nil {
+				return c, err
+			}
+		}
+	}
+	if in.Rewrite {
+		for k, v := range tmplObjs["rewrite"] {
+			if err := put(k, v); err != nil {
+				return c, err
+			}
+		}
+	}
+	if in.Dups > 0 {
+		parent := mkULID(6000, 0)
+		var srcs []ulid.ULID
+		for i := 0; i < in.Dups; i++ {
+			srcs = append(srcs, mkULID(uint64(6001+i), 0))
+		}
+		if err := put(path.Join(parent.String(), "meta.json"), metaOnly(parent, "dup", 0, int64(1000*len(srcs)), srcs)); err != nil {
+			return c, err
+		}
+		for i, s := range srcs {
+			if err := put(path.Join(s.String(), "meta.json"), metaOnly(s, "dup", int64(1000*i), int64(1000*(i+1)), nil)); err != nil {
+				return c, err
+			}
+		}
+	}
+	// initial blocks
+	var initial []ulid.ULID
+	if err := inmem.Iter(ctx, "", func(name string) error {
+		if u, err := ulid.Parse(strings.TrimSuffix(name, "/")); err == nil {
+			initial = append(initial, u)
+		}
+		return nil
+	}); err != nil {
+		return c, err
+	}
+	bkt := cu.NewRecBucket(inmem)
+	logger := log.NewNopLogger()
+	ins := objstore.WithNoopInstr(bkt)
+	dd := 48 * time.Hour
+	idm := block.NewIgnoreDeletionMarkFilter(logger, ins, dd/2, 4) // cmd/thanos/compact.go: deleteDelay/2
+	dup := block.NewDeduplicateFilter(4)
+	nc := compact.NewGatherNoCompactionMarkFilter(logger, ins, 4)
+	fetcher, err := block.NewMetaFetcher(logger, 4, ins, block.NewRecursiveLister(logger, ins), "", nil, []block.MetadataFilter{idm, dup, nc})
+	if err != nil {
+		return c, err
+	}
+	cnt := func() prometheus.Counter { return promauto.With(nil).NewCounter(prometheus.CounterOpts{}) }
+	sy, err := compact.NewMetaSyncer(logger, nil, bkt, fetcher, dup, idm, cnt(), cnt(), 0)
+	if err != nil {
+		return c, err
+	}
+	tc, err := tsdb.NewLeveledCompactor(ctx, nil, logutil.GoKitLogToSlog(logger), []int64{1000, 3000}, nil, nil)
+	if err != nil {
+		return c, err
+	}
+	planner := compact.NewPlanner(logger, []int64{1000, 3000}, nc)
+	grouper := compact.NewDefaultGrouper(logger, bkt, false, false, nil, cnt(), cnt(), cnt(), metadata.NoneFunc, 4, 4)
+	dir, err := os.MkdirTemp("", "verif-c34-run-")
+	if err != nil {
+		return c, err
+	}
+	defer os.RemoveAll(dir)
+	bc, err := compact.NewBucketCompactor(logger, sy, grouper, planner, tc, filepath.Join(dir, "compact"), bkt, 1, false,
+		compact.NewBlocksCleaner(logger, bkt, idm, dd, cnt(), cnt()))
+	if err != nil {
+		return c, err
+	}
+	to := time.Duration(in.TimeoutMs) * time.Millisecond
+	if to <= 0 {
+		to = 60 * time.Second
+	}
+	rctx, cancel := context.WithTimeout(ctx, to)
+	cerr := bc.Compact(rctx)
+	cancel()
+
+	// the operation log in terms of blocks
+	type op struct {
+		kind string
+		id   ulid.ULID
+	}
+	var ops []op
+	infos := map[ulid.ULID]*binfo{}
+	for _, id := range initial {
+		bi, err := readInfo(inmem, id)
+		if err != nil {
+			return c, err
+		}
+		infos[id] = bi
+	}
+	for _, o := range bkt.Ops() {
+		if !o.Mutating() {
+			continue
+		}
+		parts := strings.Split(o.Name, "/")
+		u, perr := ulid.Parse(parts[0])
+		if perr != nil || len(parts) != 2 {
+			continue
+		}
+		switch {
+		case o.Kind == "upload" && parts[1] == block.MetaFilename:
+			bi, err := readInfo(inmem, u)
+			if err != nil {
+				return c, fmt.Errorf("uploaded block %s not readable afterwards: %v", u, err)
+			}
+			infos[u] = bi
+			ops = append(ops, op{"OUpload", u})
+		case o.Kind == "upload" && parts[1] == metadata.DeletionMarkFilename:
+			ops = append(ops, op{"OMark", u})
+		case o.Kind == "delete" && parts[1] == block.MetaFilename:
+			ops = append(ops, op{"ODelete", u})
+		}
+	}
+	// numbering: rank of the ULID
+	var all []ulid.ULID
+	seen := map[ulid.ULID]bool{}
+	for _, bi := range infos {
+		for _, u := range append([]ulid.ULID{bi.id}, bi.sources...) {
+			if !seen[u] {
+				seen[u] = true
+				all = append(all, u)
+			}
+		}
+	}
+	sort.Slice(all, func(i, j int) bool { return all[i].Compare(all[j]) < 0 })
+	num := map[ulid.ULID]int64{}
+	for i, u := range all {
+		num[u] = int64(i + 1)
+	}
+	groups := map[string]int64{}
+	coqBlk := func(bi *binfo) string {
+		if _, ok := groups[bi.group]; !ok {
+			groups[bi.group] = int64(len(groups))
+		}
+		var ss []int64
+		for _, u := range bi.sources {
+			ss = append(ss, num[u])
+		}
+		return common.App("mk_b", common.Z(num[bi.id]), common.Z(groups[bi.group]), common.ZList(ss))
+	}
+	sort.Slice(initial, func(i, j int) bool { return initial[i].Compare(initial[j]) < 0 })
+	var bs, os_ []string
+	for _, id := range initial {
+		bs = append(bs, common.App("mk_mblk", coqBlk(infos[id]), common.None))
+	}
+	// Go-side replay of the Mark guard (search aid): a block may be marked only while each of its
+	// sources is also a source of another existing unmarked block
+	type st struct {
+		marked bool
+	}
+	cur := map[ulid.ULID]*st{}
+	for _, id := range initial {
+		cur[id] = &st{}
+	}
+	marks := 0
+	for _, o := range ops {
+		switch o.kind {
+		case "OUpload":
+			os_ = append(os_, common.App("OUpload", coqBlk(infos[o.id])))
+			cur[o.id] = &st{}
+		case "OMark":
+			os_ = append(os_, common.App("OMark", common.Z(num[o.id])))
+			marks++
+			if c.GoPred == "" && cur[o.id] != nil && !cur[o.id].marked {
+				for _, s := range infos[o.id].sources {
+					ok := false
+					for other, stt := range cur {
+						if other == o.id || stt.marked {
+							continue
+						}
+						for _, s2 := range infos[other].sources {
+							if s2 == s {
+								ok = true
+							}
+						}
+					}
+					if !ok {
+						c.GoPred = fmt.Sprintf("block %s was marked for deletion while no other unmarked block contains its source %s (it is only covered by blocks that are themselves marked for deletion)", o.id, s)
+						c.Sig = "gc-marks-rewrite-result"
+					}
+				}
+			}
+			if cur[o.id] != nil {
+				cur[o.id].marked = true
+			}
+		case "ODelete":
+			os_ = append(os_, common.App("ODelete", common.Z(num[o.id])))
+			delete(cur, o.id)
+		}
+	}
+	var finalIDs, finalMarked []int64
+	if err := inmem.Iter(ctx, "", func(name string) error {
+		u, perr := ulid.Parse(strings.TrimSuffix(name, "/"))
+		if perr != nil {
+			return nil
+		}
+		if ok, _ := inmem.Exists(ctx, path.Join(u.String(), block.MetaFilename)); !ok {
+			return nil
+		}
+		finalIDs = append(finalIDs, num[u])
+		if ok, _ := inmem.Exists(ctx, path.Join(u.String(), metadata.DeletionMarkFilename)); ok {
+			finalMarked = append(finalMarked, num[u])
+		}
+		return nil
+	}); err != nil {
+		return c, err
+	}
+	c.Obs = map[string]any{"compact_error": fmt.Sprint(cerr), "uploads_marks_deletes": len(ops), "marks": marks, "final_blocks": len(finalIDs), "final_marked": len(finalMarked)}
+	c.Class = fmt.Sprintf("compact/merge=%v/dups=%d/rewrite=%v", in.Merge, in.Dups, in.Rewrite)
+	c.Nontrivial = marks > 0
+	c.Coq = common.App("CMarkLog", common.List(bs), common.List(os_), common.ZList(finalIDs), common.ZList(finalMarked))
+	return c, nil
+}
+
 func gen(r *rand.Rand, tier string, n int) []any {
 	var out []any
+	// a few runs of the real compactor (no rewrite scenario here: that one is the known
+	// finding reproduced from the corpus)
+	nc := 6
+	if tier == "thorough" {
+		nc = 40
+	}
+	for i := 0; i < nc && i < n; i++ {
+		in := input{Kind: "compact", Merge: r.Intn(3) > 0, Dups: r.Intn(4)}
+		if !in.Merge && in.Dups == 0 {
+			in.Merge = true
+		}
+		out = append(out, in)
+	}
+	n -= len(out)
 	maxB := 10
 	if tier == "thorough" {
 		maxB = 30
